@@ -221,4 +221,12 @@ theorem bsim_setChunk {F : File} (hwf : WF F) {br : BamReader} {s : State} (h : 
     simp only [BamReader.setChunk, hsk]
     exact ⟨_, ⟨k2, h.unblocked⟩⟩
 
+/-- A BAM-shaped file: 4 header bytes, records `[9]` and `[7, 8]`; the first record ends exactly on a block
+end, an empty block follows, the second record's size field spans two blocks. -/
+def exBam : File :=
+  [⟨[66, 65, 77, 1, 1, 0, 0, 0, 9], 40⟩, ⟨[], 28⟩, ⟨[2, 0, 0], 33⟩, ⟨[0, 7, 8], 33⟩, ⟨[], 28⟩]
+
+theorem exBam_wf : WF exBam := by
+  intro m hm; simp [exBam] at hm; rcases hm with rfl | rfl | rfl | rfl | rfl <;> simp
+
 end Hts.Model.Bgzf
